@@ -117,6 +117,21 @@ func NewUWrapStack(cause error, msg string) *UWrapStack {
 	return &UWrapStack{Msg: msg, Cause: cause, St: pkgerrors.New("").(tracer).StackTrace()}
 }
 
+// UFmtArg is an application value type that knows how to print itself
+// safely: its first part is safe, its second part is not.
+type UFmtArg struct{ SafePart, UnsafePart string }
+
+// SafeFormat implements redact.SafeFormatter.
+func (a UFmtArg) SafeFormat(p redact.SafePrinter, _ rune) {
+	p.Printf("%s/%s", redact.Safe(a.SafePart), a.UnsafePart)
+}
+func (a UFmtArg) String() string { return redact.StringWithoutMarkers(a) }
+
+// UStringer is an application value type with a String method (unsafe text).
+type UStringer struct{ V string }
+
+func (s UStringer) String() string { return s.V }
+
 // UWrapPrefix is "msg: cause" with Unwrap.
 type UWrapPrefix struct {
 	Msg   string
